@@ -831,7 +831,7 @@ class Exec(Path):
 
     def lookup_global(self, name):
         fn = self.func_stack[-1] if self.func_stack else None
-        if self.pure and name in self.reg.spec_funcs:
+        if self.pure and not getattr(self, "code_eval", 0) and name in self.reg.spec_funcs:
             return VBuiltin("spec:" + name)
         if fn is not None and fn.get("info") is not None:
             mod = fn["info"].module
@@ -1525,9 +1525,13 @@ class Exec(Path):
 
             def rule(i, src=src, g=g, n=n):
                 sv = dict(self.env)
-                self.assign(g.target, src["get"](i))
-                v = self.eval(n.elt)
-                self.restore_env(sv)
+                self.code_eval = getattr(self, "code_eval", 0) + 1      # names in element expressions resolve as in the code
+                try:
+                    self.assign(g.target, src["get"](i))
+                    v = self.eval(n.elt)
+                finally:
+                    self.code_eval -= 1
+                    self.restore_env(sv)
                 return v
             return self.alloc(HList(rule=(ln, rule)))
         if len(n.generators) == 2 and not n.generators[0].ifs and not n.generators[1].ifs \
@@ -1543,9 +1547,13 @@ class Exec(Path):
 
                 def rule2(i, g=g, n=n, flat=flat):
                     sv = dict(self.env)
-                    self.assign(g.target, VBox(flat[i]))
-                    v = self.eval(n.elt)
-                    self.restore_env(sv)
+                    self.code_eval = getattr(self, "code_eval", 0) + 1
+                    try:
+                        self.assign(g.target, VBox(flat[i]))
+                        v = self.eval(n.elt)
+                    finally:
+                        self.code_eval -= 1
+                        self.restore_env(sv)
                     return v
                 return self.alloc(HList(rule=(ln, rule2)))
         if len(n.generators) == 1 and len(n.generators[0].ifs) == 1:
